@@ -7,6 +7,7 @@
    models where they exist), and what was observed afterwards. *)
 From Coq Require Import String Ascii List Bool NArith.
 From Shoot Require Import Base.Str Model.Transfer Model.GoWf Model.Enum.
+From Shoot Require Model.Ctor Model.CtorSpec Model.CtorOpt Model.MapperSpec Corr.MapperCorr Model.RestSpec.
 Import ListNotations.
 Local Open Scope string_scope.
 Local Open Scope list_scope.
@@ -16,7 +17,16 @@ Inductive gdata :=
 | GEnumData (d : enum_data)
 | GEnumSpec (p : Enum.pkg) (T : string) (fl : Enum.flags)   (* data computed by Model/Enum.v *)
 | GRest (d : rest_data)
-| GMap (d : map_data).
+| GMap (d : map_data)
+(* `new` on struct T of a Model/Ctor.v package: template data computed by Ctor.new_of / CtorOpt
+   when only -opt/-short are given; with -getset/-json only the guard is computed (no skeleton yet) *)
+| GNewSpec (p : Ctor.pkg_spec) (fl : Ctor.ctor_flags) (fuel : nat) (T : string)
+(* `map`: the pair specification decides the guard (Model/MapperSpec.v pair_guard) *)
+| GMapSpec (ps : MapperCorr.pairspec) (d : map_data)
+(* `rest`: the structured directives of the interface's methods decide the guard (Model/RestSpec.v wf_mspec) *)
+| GRestSpec (mss : list RestSpec.mspec) (d : rest_data)
+(* no model of the declared names: only the property itself is evaluated *)
+| GOpaque.
 
 Record ofile := {
   of_header : string;
@@ -47,6 +57,39 @@ Definition enum_data_of (g : Enum.gen) : enum_data :=
      ed_bit := f_bit (g_flags g); ed_json := f_json (g_flags g); ed_text := f_text (g_flags g);
      ed_sql := f_sql (g_flags g); ed_gorm := f_gorm (g_flags g) |}.
 
+Definition ctor_struct (p : Ctor.pkg_spec) (T : string) : option Ctor.sdecl := Ctor.find_struct p "" T.
+
+Definition ctor_plainish (fl : Ctor.ctor_flags) : bool :=
+  negb (Ctor.fl_getset fl) && negb (Ctor.fl_json fl).
+
+Definition new_data_of (fl : Ctor.ctor_flags) (T : string) (nd : Ctor.new_data) : new_data :=
+  {| nd_type := T; nd_all := Ctor.nd_all nd; nd_defaults := Ctor.nd_def_list nd;
+     nd_getters := []; nd_setters := []; nd_get_ifaces := []; nd_set_ifaces := [];
+     nd_getset := false; nd_opt := Ctor.fl_opt fl; nd_short := Ctor.fl_short fl; nd_json := false |}.
+
+(* the input classes of the theorems' guards (and of the open findings of the generator's own checks) *)
+Definition data_in_guard (d : gdata) : bool :=
+  match d with
+  | GNewSpec p fl fuel T =>
+      match ctor_struct p T with
+      | Some sd =>
+          if Ctor.fl_opt fl then CtorOpt.c13_guard (Ctor.fl_short fl) p fuel sd
+          else CtorSpec.c02_guard p fuel sd && (ctor_plainish fl || CtorOpt.not_generic sd)
+      | None => false
+      end
+  | GMapSpec ps _ => MapperSpec.pair_guard (MapperCorr.ps_env ps) (MapperCorr.ps_fuel ps) (MapperCorr.ps_jobs ps)
+  | GRestSpec mss _ => forallb RestSpec.wf_mspec mss
+  | _ => true
+  end.
+
+(* is there a skeleton (declared names) to compare with? *)
+Definition data_has_skeleton (d : gdata) : bool :=
+  match d with
+  | GNewSpec _ fl _ _ => ctor_plainish fl
+  | GOpaque => false
+  | _ => true
+  end.
+
 (* the model's files for the run (header/version are compared separately) *)
 Definition model_file (c : case) (d : gdata) : list gfile :=
   let cmd := cmdline (c_args c) in
@@ -60,9 +103,23 @@ Definition model_file (c : case) (d : gdata) : list gfile :=
       end
   | GRest d => [rest_file (c_pkg c) cmd "" d]
   | GMap d => [map_file (c_pkg c) cmd "" d]
+  | GMapSpec _ d => [map_file (c_pkg c) cmd "" d]
+  | GRestSpec _ d => [rest_file (c_pkg c) cmd "" d]
+  | GNewSpec p fl fuel T =>
+      match ctor_struct p T with
+      | Some sd =>
+          match Ctor.new_of p fl fuel sd with
+          | Ctor.COk nd => [new_file (c_pkg c) cmd "" (new_data_of fl T nd)]
+          | _ => []
+          end
+      | None => []
+      end
+  | GOpaque => []
   end.
 
 Definition model_files (c : case) : list gfile := flat_map (model_file c) (c_data c).
+Definition case_in_guard (c : case) : bool := forallb data_in_guard (c_data c).
+Definition case_has_skeleton (c : case) : bool := forallb data_has_skeleton (c_data c).
 
 Definition subsetb (a b : list key) : bool := forallb (fun k => memb k b) a.
 Definition same_keys (a b : list key) : bool := subsetb a b && subsetb b a.
@@ -79,9 +136,9 @@ Definition model_wf (c : case) : bool :=
 
 (* 1 .. : which component of the correspondence differs (0 = none) *)
 Definition corr_component (c : case) : N :=
-  if negb (same_keys (obs_defs c) (flat_map gf_defs (model_files c))) then 1%N
+  if case_has_skeleton c && negb (same_keys (obs_defs c) (flat_map gf_defs (model_files c))) then 1%N
   else if negb (forallb (fun f => String.prefix (header_prefix c) (of_header f)) (c_files c)) then 2%N
-  else if negb (Bool.eqb (model_wf c) (c_build c)) then 3%N
+  else if case_has_skeleton c && negb (Bool.eqb (model_wf c) (c_build c)) then 3%N
   else 0%N.
 
 (* the property, on what the implementation did: a reported success left
@@ -91,8 +148,10 @@ Definition Pb (c : case) : bool :=
   (forallb (fun f => header_ok (of_header f) && String.eqb (of_pkg f) (c_pkg c)) (c_files c)
    && c_gofmt c && c_build c).
 
+(* a case outside the guards is not compared (verdict 9: counted by the harness, never a violation) *)
 Definition verdict (c : case) : N * N :=
-  if negb (Pb c) then (2%N, corr_component c)
+  if negb (case_in_guard c) then (9%N, 0%N)
+  else if negb (Pb c) then (2%N, corr_component c)
   else match corr_component c with 0%N => (0%N, 0%N) | k => (1%N, k) end.
 
 Fixpoint mismatches_from (i : N) (cs : list case) : list (N * N) :=
